@@ -381,7 +381,7 @@ def run(ctx):
             continue
         ctx.dist['corpus-files'] += 1
         check_message(ctx, {'file': os.path.basename(f)}, toks, b, os.path.basename(f), ctx.n(4, 6), ctx.n(8, 30))
-    ctx.partial = ['query_eq_reference (query = evaluation over the nested rendering) is checked differentially, not proved']
+    ctx.partial = ['each step of a query is proved (C16_step_*); their composition over the tree, query_eq_reference (query = evaluation over the nested rendering), is checked differentially, not proved']
     ctx.assumptions = ['descendant (>) paths: only the tie with the model and the bare-id law are checked']
 
 
